@@ -756,6 +756,56 @@ func cmdCheckOracle(args []string) {
 			}
 		}
 	}
+	// two failure sites that share their innermost frames: the same helper chain, depth levels deep, ends in Fatalf and
+	// is entered from two places of the property. The failure site is the whole call stack inside the property, so
+	// minimization must not move from the one found (large inputs only) to the other (reachable from smaller inputs)
+	if *only < 0 || *only == 900007 {
+		gx := rapid.IntRange(0, 1000000)
+		for _, depth := range []int{2, 9, 13, 20, 26, 40, 90, 300} {
+			first, last := "", ""
+			prop := func(t *rapid.T) {
+				last = ""
+				x := gx.Draw(t, "x")
+				site := ""
+				switch {
+				case x >= 500000:
+					site = "A"
+				case x >= 1000:
+					site = "B"
+				default:
+					return
+				}
+				last = site
+				if first == "" {
+					first = site
+				}
+				if site == "A" {
+					deepSiteA(t, depth, x)
+				} else {
+					deepSiteB(t, depth, x)
+				}
+			}
+			moved := false
+			for k := uint64(0); k < 12 && !moved; k++ {
+				first, last = "", ""
+				old := setFlags(100, (*seed+k*7919)|1, 300*time.Millisecond, true)
+				tb := &recTB{name: "T"}
+				esc := runTB(func() { rapid.Check(tb, prop) })
+				rapid.VerifSetFlags(old)
+				verdict, _, _, msg, _ := classifyTB(tb)
+				stats["deep_site_runs"]++
+				if first == "A" {
+					stats["deep_site_runs_found_A"]++
+				}
+				if esc == nil && (verdict == "failed" || verdict == "panic") && first == "A" && last != first {
+					fails = append(fails, oracleFailure{"C05", "the minimized failure is raised at another site than the failure found",
+						fmt.Sprintf("IntRange(0,1000000): x >= 500000 fails through a %d-deep helper chain entered at site A, 1000 <= x < 500000 through the same chain entered at site B", depth), 100, (*seed + k*7919) | 1, "300ms",
+						fmt.Sprintf("found at site %s, reported at site %q (verdict %s, msg %q)", first, last, verdict, msg), *seed, 900007, *prof})
+					moved = true
+				}
+			}
+		}
+	}
 	// many large passing test cases in one run: every one of them is valid on its own, whatever ran before it
 	if *only < 0 || *only == 900003 {
 		gbig := rapid.SliceOfN(rapid.Uint16(), 50000, 60000)
@@ -1005,6 +1055,21 @@ func rejectedAttemptEffects(events []string) string {
 
 //go:noinline
 func cleanupSiteA() { panic("cleanup failure") }
+
+//go:noinline
+func deepDescend(t *rapid.T, depth int, x int) {
+	if depth > 0 {
+		deepDescend(t, depth-1, x)
+		return
+	}
+	t.Fatalf("invariant broken")
+}
+
+//go:noinline
+func deepSiteA(t *rapid.T, depth int, x int) { deepDescend(t, depth, x) }
+
+//go:noinline
+func deepSiteB(t *rapid.T, depth int, x int) { deepDescend(t, depth, x) }
 
 //go:noinline
 func cleanupSiteB() { panic("cleanup failure") }
